@@ -112,7 +112,8 @@ On(a) == a \in Fam
 
 (* ---- leaves --------------------------------------------------------------- *)
 PushLit == On("lit") /\ Building /\ \E j \in 1..Len(LitPool) : Join(0, Lit(LitPool[j]))
-PushVar == On("var") /\ Building /\ \E j \in 1..Len(Cur.scope) : Join(0, Sym(Cur.scope[j].nm))
+(* (a name bound by a constraint statement is mentioned after `::` only - MkConLet's pool) *)
+PushVar == On("var") /\ Building /\ \E j \in 1..Len(Cur.scope) : Cur.scope[j].val.t # "con" /\ Join(0, Sym(Cur.scope[j].nm))
 
 (* ---- scope probes (C10): names that must NOT be visible ------------------- *)
 (* inside a module body: a binding of the enclosing file *)
@@ -353,6 +354,25 @@ MkConLet == On("conlet") /\ Building /\ Cur.kind = "top" /\ Len(Stk) = 1 /\ NGen
                     /\ phase' = IF ok THEN "gen" ELSE "closing"
                     /\ UNCHANGED << ill, vm >>
 
+(* `constraint name = c;` with a genuine constraint of ConPool (ranges, alternatives): a fresh name, *)
+(* or - with "badlet" - one that is taken                                                           *)
+MkConStmt == On("constmt") /\ Building /\ Cur.kind = "top" /\ Stk = << >> /\ NGen < MaxStmts /\
+             LET c == Cur
+             IN \E q \in 1..Len(ConPool) : \E j \in 0..Len(Names) :
+                  LET rebind == j = 0
+                      cands == IF rebind THEN {c.scope[z].nm : z \in 1..Len(c.scope)} ELSE {Names[j]}
+                  IN /\ ConPool[q].e = "con"
+                     /\ (rebind => On("badlet")) /\ (~rebind => j > c.last)
+                     /\ \E nm \in cands :
+                          LET v == EvalE(ConPool[q], Append(c.scope, Fld(nm, ConV(<< >>))), << >>)
+                              ok == ~rebind /\ ~Bad(v)
+                          IN /\ ~IsUnm(v)
+                             /\ prog' = Append(prog, [s |-> "cstmt", nm |-> nm, x |-> ConPool[q]])
+                             /\ SetCur([c EXCEPT !.last = IF rebind THEN @ ELSE j, !.cl = IF ok THEN @ ELSE "dirty",
+                                                 !.scope = IF ok THEN Append(@, Fld(nm, v)) ELSE @])
+                             /\ phase' = IF ok THEN "gen" ELSE "closing"
+                     /\ UNCHANGED << ill, vm >>
+
 MkExprStmt == On("exprstmt") /\ Building /\ Cur.kind = "top" /\ Len(Stk) = 1 /\ NGen < MaxStmts /\
               /\ prog' = Append(prog, [s |-> "expr", x |-> Cur.stk[1].x])
               /\ SetCur([Cur EXCEPT !.stk = << >>, !.cl = Worse(@, Cur.stk[1].cl)])
@@ -374,7 +394,7 @@ GenInit == /\ ctx = << Ctx("top", Run(Prelude).env, << >>, << >>, 0) >>
 GenNext == \/ PushLit \/ PushVar \/ MkEnvRead \/ MkOuterRef \/ MkLeakRef \/ MkFwdRef \/ MkBin \/ MkNot \/ MkTrace \/ MkFail \/ MkCast \/ MkIs \/ MkInName
            \/ MkList \/ MkTuple \/ MkDotName \/ MkDotIdx \/ MkDotCall \/ MkDotCopy \/ MkRange \/ MkSelect \/ MkCall \/ MkBadCall
            \/ MkCopy \/ MkFmtList \/ MkFmtBad \/ MkFmtSingle \/ MkFop \/ OpenFunc \/ CloseFunc \/ OpenMod \/ CloseMod
-           \/ MkLet \/ MkLetUse \/ MkBadLet \/ MkConLet \/ MkExprStmt \/ Finish \/ RunStep \/ RunEnd
+           \/ MkLet \/ MkLetUse \/ MkBadLet \/ MkConLet \/ MkConStmt \/ MkExprStmt \/ Finish \/ RunStep \/ RunEnd
 
 (* ---- what is checked ------------------------------------------------------------ *)
 Done == phase = "done"
@@ -382,7 +402,7 @@ Final == IF RunVM THEN vm ELSE RunToEnd(vm, 4000)
 
 (* parse/mod.rs: a let statement may not bind `env` (the parser aborts) - such a *)
 (* program never reaches the translator                                         *)
-ParserRejects(p) == \E j \in 1..Len(p) : p[j].s \in {"let", "clet"} /\ p[j].nm = N_env
+ParserRejects(p) == \E j \in 1..Len(p) : p[j].s \in {"let", "clet", "cstmt"} /\ p[j].nm = N_env
 Compiled(m) == IF ParserRejects(prog) THEN [k |-> "fail"] ELSE VMOut(m)
 
 (* C01: executing the compiled form ends as the reference semantics says *)
